@@ -13,14 +13,19 @@
    model as the expected-check (rejections) and the after-interceptor (the new value) of
    [spec_v_set], so the write path is literally the resource model's.
 
-     Get<R>(name, read_mask)              = Value.Get(WithReadMask)
+     Get<R>(name, read_mask)              = Value.Get(WithReadMask), filter [get_filter]
      Update<R>(name, ...)                 = Value.Set(...) decided by [rule]; the handler epilogue
                                             either checks err before asserting the result type
                                             ([checked] = true) or asserts first (the v0 of four
                                             handlers: a nil result panics)
-     Pull<R>(name, read_mask, updates_only) = Value.Pull(WithReadMask, WithUpdatesOnly); every change is
-                                            wrapped with the REQUEST's name
+     Pull<R>(name, read_mask, updates_only) = Value.Pull(WithReadMask, WithUpdatesOnly), filter [r_filter];
+                                            every change is wrapped with the REQUEST's name
      router: a name outside [devs] is NotFound (5) and reaches nothing.
+
+   Two parameters exist for the one server that is not a plain register (openclosepb, see
+   Servers/C14Judge.v): [get_filter] may differ from [r_filter], and [live] says whether a Pull
+   opened on a given register value is served at all.  Everywhere else get_filter = r_filter and
+   live = (fun _ => true).
 
    Streams: the reader keeps receiving (the unbuffered hand-offs of the stack never hold a writer
    back), so a stream is described by the register state at subscription and the events published
